@@ -7,6 +7,7 @@ use hcobs::verif::LimitEncoder;
 use hcobs::Decoder;
 use hcobs::Encoder;
 use mc_core::refcodec;
+use mc_core::{oracle, Oracle};
 use owning_iovec::AnchoredSlice;
 use owning_iovec::ByteArena;
 use owning_iovec::ConsumingIovec;
@@ -27,8 +28,13 @@ pub enum M {
     Anchored,
     /// encode_read / decode_read with a reader that delivers 1 byte, then an EINTR, then the rest
     Read,
+    /// anchored, but the arena read (read_n) for this piece was issued EARLIER: right after the
+    /// previous piece was fed and before its drain (before the first feed for piece 0), so an
+    /// AnchoredSlice is held across a feed call and a drain, the way a pipelined reader does
+    Prefetched,
 }
 pub const METHODS: [M; 4] = [M::Borrow, M::Copy, M::Anchored, M::Read];
+pub const ALL_METHODS: [M; 5] = [M::Borrow, M::Copy, M::Anchored, M::Read, M::Prefetched];
 
 #[derive(Clone, Copy, Debug, PartialEq, Eq, Hash)]
 pub enum D {
@@ -38,8 +44,16 @@ pub enum D {
     Advance1,
     AdvanceAll,
     Read2,
+    /// over-asking drains: one slice / one or two bytes more than is consumable, and a Read into a
+    /// buffer larger than everything consumable (spans every stable slice in one call)
+    ConsumePlus1,
+    AdvancePlus1,
+    AdvancePlus2,
+    ReadAll,
 }
 pub const DRAINS: [D; 6] = [D::None, D::Consume1, D::ConsumeAll, D::Advance1, D::AdvanceAll, D::Read2];
+pub const OVER_DRAINS: [D; 4] = [D::ConsumePlus1, D::AdvancePlus1, D::AdvancePlus2, D::ReadAll];
+pub const ALL_DRAINS: [D; 10] = [D::None, D::Consume1, D::ConsumeAll, D::Advance1, D::AdvanceAll, D::Read2, D::ConsumePlus1, D::AdvancePlus1, D::AdvancePlus2, D::ReadAll];
 
 #[derive(Clone, Copy, Debug, PartialEq, Eq, Hash)]
 pub struct Piece {
@@ -64,8 +78,8 @@ pub fn parse_pieces(text: &str) -> Option<Vec<Piece>> {
         out.push(Piece {
             lo: lo.parse().ok()?,
             hi: hi.parse().ok()?,
-            m: METHODS.iter().copied().find(|x| format!("{:?}", x) == m)?,
-            d: DRAINS.iter().copied().find(|x| format!("{:?}", x) == d)?,
+            m: ALL_METHODS.iter().copied().find(|x| format!("{:?}", x) == m)?,
+            d: ALL_DRAINS.iter().copied().find(|x| format!("{:?}", x) == d)?,
         });
     }
     Some(out)
@@ -129,6 +143,30 @@ impl<'a> Enc<'a> {
             Enc::Lim(e) => e.consumer(),
         }
     }
+    /// read_n of `data` into the codec's arena without feeding it.
+    pub fn read_ahead(&mut self, data: &[u8]) -> Result<AnchoredSlice, String> {
+        let max = NonZeroUsize::MAX;
+        let s = match self {
+            Enc::Prod(e) => e.read_n(FullReader(data), data.len(), max),
+            Enc::Lim(e) => e.read_n(FullReader(data), data.len(), max),
+        }
+        .map_err(|e| format!("read_n failed: {}", e))?;
+        if s.slice() != data {
+            return Err("read_n returned other bytes than delivered".into());
+        }
+        Ok(s)
+    }
+    /// Feeds a slice obtained earlier by `read_ahead`; its bytes must still be what was read.
+    pub fn feed_slice(&mut self, s: AnchoredSlice, data: &[u8]) -> Result<(), String> {
+        if s.slice() != data {
+            return Err(format!("[live] an AnchoredSlice held since an earlier read_n no longer holds the bytes that were read: {:02X?} expected {:02X?}", &s.slice()[..s.slice().len().min(8)], &data[..data.len().min(8)]));
+        }
+        match self {
+            Enc::Prod(e) => e.encode_anchored(s),
+            Enc::Lim(e) => e.encode_anchored(s),
+        }
+        Ok(())
+    }
     pub fn state_key(&self) -> (usize, usize, bool) {
         match self {
             Enc::Prod(e) => hcobs::verif::encoder_state_key(e),
@@ -137,7 +175,10 @@ impl<'a> Enc<'a> {
     }
     pub fn feed(&mut self, data: &'a [u8], m: M) -> Result<(), String> {
         let max = NonZeroUsize::MAX;
+        // a Prefetched piece fed through this entry point (families that do not pipeline) is plain anchored
+        let m = if m == M::Prefetched { M::Anchored } else { m };
         match (self, m) {
+            (_, M::Prefetched) => unreachable!(),
             (Enc::Prod(e), M::Borrow) => e.encode(data),
             (Enc::Lim(e), M::Borrow) => e.encode(data),
             (Enc::Prod(e), M::Copy) => {
@@ -204,6 +245,27 @@ impl<'a> Dec<'a> {
             Dec::Lim(e) => e.consumer(),
         }
     }
+    pub fn read_ahead(&mut self, data: &[u8]) -> Result<AnchoredSlice, String> {
+        let max = NonZeroUsize::MAX;
+        let s = match self {
+            Dec::Prod(e) => e.read_n(FullReader(data), data.len(), max),
+            Dec::Lim(e) => e.read_n(FullReader(data), data.len(), max),
+        }
+        .map_err(|e| format!("read_n failed: {}", e))?;
+        if s.slice() != data {
+            return Err("read_n returned other bytes than delivered".into());
+        }
+        Ok(s)
+    }
+    pub fn feed_slice(&mut self, s: AnchoredSlice, data: &[u8]) -> Result<bool, String> {
+        if s.slice() != data {
+            return Err(format!("[live] an AnchoredSlice held since an earlier read_n no longer holds the bytes that were read: {:02X?} expected {:02X?}", &s.slice()[..s.slice().len().min(8)], &data[..data.len().min(8)]));
+        }
+        Ok(match self {
+            Dec::Prod(e) => e.decode_anchored(s).is_ok(),
+            Dec::Lim(e) => e.decode_anchored(s).is_ok(),
+        })
+    }
     pub fn state_key(&self) -> String {
         match self {
             Dec::Prod(e) => hcobs::verif::decoder_state_key(e),
@@ -213,7 +275,9 @@ impl<'a> Dec<'a> {
     /// Ok(true) = accepted so far, Ok(false) = decode error (rejected)
     pub fn feed(&mut self, data: &'a [u8], m: M) -> Result<bool, String> {
         let max = NonZeroUsize::MAX;
+        let m = if m == M::Prefetched { M::Anchored } else { m };
         let r = match (self, m) {
+            (_, M::Prefetched) => unreachable!(),
             (Dec::Prod(e), M::Borrow) => e.decode(data).is_ok(),
             (Dec::Lim(e), M::Borrow) => e.decode(data).is_ok(),
             (Dec::Prod(e), M::Copy) => {
@@ -262,6 +326,17 @@ pub struct Obs {
     pub drained_early: usize,
 }
 
+/// A tagged check fails the execution only when its oracle class is selected for the running
+/// property; otherwise the execution goes on, so that a sibling property's oracle never hides a
+/// later failure of the selected one.
+fn fail(o: Oracle, msg: String) -> Result<(), String> {
+    if oracle(o) {
+        Err(msg)
+    } else {
+        Ok(())
+    }
+}
+
 fn slice_ok(ptr: usize, len: usize, buffers: &[(usize, usize)]) -> bool {
     len == 0 || owning_iovec::verif::is_live(ptr, len) || buffers.iter().any(|(lo, hi)| *lo <= ptr && ptr + len <= *hi)
 }
@@ -272,57 +347,75 @@ fn observe(consumer: &ConsumingIovec<'_>, buffers: &[(usize, usize)], who: &str)
     let mut stable = Vec::new();
     for (i, s) in consumer.stable_prefix().iter().enumerate() {
         if s.is_empty() {
-            return Err(format!("[content] {}: exposed slice #{} is empty", who, i));
+            fail(Oracle::Content, format!("[content] {}: exposed slice #{} is empty", who, i))?;
         }
         if !slice_ok(s.as_ptr() as usize, s.len(), buffers) {
-            return Err(format!("[live] {}: exposed slice #{} ({} bytes) is neither in a live arena chunk nor in a caller buffer", who, i, s.len()));
+            fail(Oracle::Liveness, format!("[live] {}: exposed slice #{} ({} bytes) is neither in a live arena chunk nor in a caller buffer", who, i, s.len()))?;
         }
         stable.extend_from_slice(s);
     }
     let total = consumer.total_size();
     if stable.len() > total {
-        return Err(format!("[prefix] {}: {} stable bytes but total_size() = {}", who, stable.len(), total));
+        fail(Oracle::PrefixLag, format!("[prefix] {}: {} stable bytes but total_size() = {}", who, stable.len(), total))?;
     }
     Ok((stable, total))
 }
 
-/// Applies one drain op; returns the bytes removed (verified against `stable`).
+/// Applies one drain op; returns the number of bytes it removed from the front of the pipe.
+/// What the op *returns* is judged under the [prefix] class; bytes that disappear without having
+/// been consumable (a drain that removes more than it was shown) are lost output, which every
+/// property about the produced bytes is entitled to report.
 fn drain(consumer: &mut ConsumingIovec<'_>, d: D, stable: &[u8], who: &str) -> Result<usize, String> {
     let lens: Vec<usize> = consumer.stable_prefix().iter().map(|s| s.len()).collect();
-    let removed = match d {
-        D::None => 0,
-        D::Consume1 | D::ConsumeAll => {
-            let k = if d == D::Consume1 { 1 } else { usize::MAX };
+    let total_before = consumer.total_size();
+    match d {
+        D::None => {}
+        D::Consume1 | D::ConsumeAll | D::ConsumePlus1 => {
+            let k = match d {
+                D::Consume1 => 1,
+                D::ConsumeAll => usize::MAX,
+                _ => lens.len() + 1,
+            };
             let got = consumer.consume(k);
             if got != k.min(lens.len()) {
-                return Err(format!("[prefix] {}: consume returned {} with {} stable slices", who, got, lens.len()));
+                fail(Oracle::PrefixLag, format!("[prefix] {}: consume({}) returned {} with {} stable slices", who, if k == usize::MAX { "MAX".to_string() } else { k.to_string() }, got, lens.len()))?;
             }
-            lens[..got].iter().sum()
         }
-        D::Advance1 | D::AdvanceAll => {
-            let k = if d == D::Advance1 { 1 } else { usize::MAX };
+        D::Advance1 | D::AdvanceAll | D::AdvancePlus1 | D::AdvancePlus2 => {
+            let k = match d {
+                D::Advance1 => 1,
+                D::AdvanceAll => usize::MAX,
+                D::AdvancePlus1 => stable.len() + 1,
+                _ => stable.len() + 2,
+            };
             let got = consumer.advance_slices(k);
             if got != k.min(stable.len()) {
-                return Err(format!("[prefix] {}: advance_slices returned {} with {} stable bytes", who, got, stable.len()));
+                fail(Oracle::PrefixLag, format!("[prefix] {}: advance_slices(stable{}) returned {} with {} stable bytes", who, match d { D::Advance1 => " min 1", D::AdvanceAll => " MAX", D::AdvancePlus1 => " + 1", _ => " + 2" }, got, stable.len()))?;
             }
-            got
         }
-        D::Read2 => {
-            let mut buf = [0u8; 2];
+        D::Read2 | D::ReadAll => {
+            let mut buf = vec![0u8; if d == D::Read2 { 2 } else { stable.len() + 64 }];
             let got = consumer.read(&mut buf).map_err(|e| format!("{}: read failed: {}", who, e))?;
-            if got != 2.min(stable.len()) || buf[..got] != stable[..got] {
-                return Err(format!("[prefix] {}: read returned {} bytes {:02X?} with stable prefix starting {:02X?}", who, got, &buf[..got], &stable[..stable.len().min(2)]));
+            if got > stable.len() || buf[..got] != stable[..got] {
+                // Read may legitimately return fewer bytes than asked; what it returns must be the front of the pipe
+                return Err(format!("[prefix] [shape] [roundtrip] {}: read returned {} bytes {:02X?} although the consumable bytes start {:02X?}", who, got, &buf[..got.min(8)], &stable[..stable.len().min(8)]));
             }
-            got
+            if got == 0 && !stable.is_empty() {
+                fail(Oracle::PrefixLag, format!("[prefix] {}: read returned nothing with {} consumable bytes", who, stable.len()))?;
+            }
         }
-    };
+    }
+    let removed = total_before - consumer.total_size().min(total_before);
+    if removed > stable.len() {
+        return Err(format!("[prefix] [shape] [roundtrip] {}: drain {:?} removed {} bytes although only {} were consumable: output that was never shown to the consumer is lost", who, d, removed, stable.len()));
+    }
     // what is left must be the rest of what was visible
     let mut rest = Vec::new();
     for s in consumer.stable_prefix() {
         rest.extend_from_slice(s);
     }
-    if rest != stable[removed..] {
-        return Err(format!("[prefix] {}: after {:?} the stable bytes are not the previous ones minus the {} removed", who, d, removed));
+    if rest.len() < stable.len() - removed || rest[..stable.len() - removed] != stable[removed..] {
+        return Err(format!("[prefix] [shape] [roundtrip] {}: after {:?} ({} bytes removed) the consumable bytes are not the previous ones minus what was removed: output lost or reordered", who, d, removed));
     }
     Ok(removed)
 }
@@ -347,8 +440,24 @@ pub fn run_encode(input: &[u8], pieces: &[Piece], limits: Limits, prefill: &[u8]
     let mut drained: Vec<u8> = Vec::new();
     let mut snaps: Vec<(usize, Vec<u8>)> = Vec::new();
     obs.enc_states.push(enc.state_key());
-    for p in pieces {
-        enc.feed(&input[p.lo..p.hi], p.m)?;
+    let mut ahead: Option<AnchoredSlice> = None;
+    if let Some(p0) = pieces.first() {
+        if p0.m == M::Prefetched {
+            ahead = Some(enc.read_ahead(&input[p0.lo..p0.hi])?);
+        }
+    }
+    for (pi, p) in pieces.iter().enumerate() {
+        if p.m == M::Prefetched {
+            let s = ahead.take().ok_or_else(|| "harness: no prefetched slice".to_string())?;
+            enc.feed_slice(s, &input[p.lo..p.hi])?;
+        } else {
+            enc.feed(&input[p.lo..p.hi], p.m)?;
+        }
+        if let Some(nx) = pieces.get(pi + 1) {
+            if nx.m == M::Prefetched {
+                ahead = Some(enc.read_ahead(&input[nx.lo..nx.hi])?);
+            }
+        }
         obs.enc_states.push(enc.state_key());
         let mut consumer = enc.consumer();
         let (stable, total) = observe(&consumer, &buffers, "encoder")?;
@@ -356,7 +465,7 @@ pub fn run_encode(input: &[u8], pieces: &[Piece], limits: Limits, prefill: &[u8]
         obs.max_lag = obs.max_lag.max(lag);
         let bound = owning_iovec::verif::max_chunk_size_seen() + later + 2;
         if lag > bound {
-            return Err(format!("[prefix] encoder lag: {} bytes produced but not consumable, bound is one arena chunk ({}) + one HCOBS chunk ({}) + header (2)", lag, owning_iovec::verif::max_chunk_size_seen(), later));
+            fail(Oracle::PrefixLag, format!("[prefix] encoder lag: {} bytes produced but not consumable, bound is one arena chunk ({}) + one HCOBS chunk ({}) + header (2)", lag, owning_iovec::verif::max_chunk_size_seen(), later))?;
         }
         let removed = drain(&mut consumer, p.d, &stable, "encoder")?;
         snaps.push((drained.len(), stable));
@@ -370,20 +479,20 @@ pub fn run_encode(input: &[u8], pieces: &[Piece], limits: Limits, prefill: &[u8]
     };
     for (i, s) in out.stable_prefix().iter().enumerate() {
         if !slice_ok(s.as_ptr() as usize, s.len(), &buffers) {
-            return Err(format!("[live] encoder: final slice #{} is neither in a live arena chunk nor in a caller buffer", i));
+            fail(Oracle::Liveness, format!("[live] encoder: final slice #{} is neither in a live arena chunk nor in a caller buffer", i))?;
         }
     }
     let mut output = drained;
     output.extend_from_slice(&rest);
     for (at, stable) in &snaps {
         if output.len() < at + stable.len() || output[*at..at + stable.len()] != stable[..] {
-            return Err(format!("[prefix] encoder: bytes consumable after a call (offset {}, {} bytes) are not a prefix of the final output", at, stable.len()));
+            fail(Oracle::PrefixLag, format!("[prefix] encoder: bytes consumable after a call (offset {}, {} bytes) are not a prefix of the final output", at, stable.len()))?;
         }
     }
     drop(out);
     let live1 = (ByteArena::num_live_chunks(), ByteArena::num_live_bytes());
     if live1 != live0 {
-        return Err(format!("[leak] arena leak after dropping the encoder output: live (chunks, bytes) {:?} -> {:?}", live0, live1));
+        fail(Oracle::Leak, format!("[leak] arena leak after dropping the encoder output: live (chunks, bytes) {:?} -> {:?}", live0, live1))?;
     }
     if output.len() < prefill.len() || output[..prefill.len()] != *prefill {
         return Err("output does not start with the pre-filled iovec contents".into());
@@ -398,7 +507,7 @@ pub fn run_decode(encoded: &[u8], pieces: &[Piece], limits: Limits, prefill: &[u
     let verdict = run_decode_inner(encoded, pieces, limits, prefill, obs)?;
     let live1 = (ByteArena::num_live_chunks(), ByteArena::num_live_bytes());
     if live1 != live0 {
-        return Err(format!("[leak] arena leak after dropping the decoder: live (chunks, bytes) {:?} -> {:?}", live0, live1));
+        fail(Oracle::Leak, format!("[leak] arena leak after dropping the decoder: live (chunks, bytes) {:?} -> {:?}", live0, live1))?;
     }
     Ok(verdict)
 }
@@ -414,8 +523,26 @@ fn run_decode_inner(encoded: &[u8], pieces: &[Piece], limits: Limits, prefill: &
     let mut snaps: Vec<(usize, Vec<u8>)> = Vec::new();
     let mut verdict: Option<Option<Vec<u8>>> = None;
     obs.dec_states.push(dec.state_key());
-    for p in pieces {
-        let ok = dec.feed(&encoded[p.lo..p.hi], p.m)?;
+    let mut ahead: Option<AnchoredSlice> = None;
+    if let Some(p0) = pieces.first() {
+        if p0.m == M::Prefetched {
+            ahead = Some(dec.read_ahead(&encoded[p0.lo..p0.hi])?);
+        }
+    }
+    for (pi, p) in pieces.iter().enumerate() {
+        let ok = if p.m == M::Prefetched {
+            let s = ahead.take().ok_or_else(|| "harness: no prefetched slice".to_string())?;
+            dec.feed_slice(s, &encoded[p.lo..p.hi])?
+        } else {
+            dec.feed(&encoded[p.lo..p.hi], p.m)?
+        };
+        if ok {
+            if let Some(nx) = pieces.get(pi + 1) {
+                if nx.m == M::Prefetched {
+                    ahead = Some(dec.read_ahead(&encoded[nx.lo..nx.hi])?);
+                }
+            }
+        }
         // Even after a decode error whatever the consumer exposes must be alive.
         let mut consumer = dec.consumer();
         let (stable, total) = observe(&consumer, &buffers, "decoder")?;
@@ -429,7 +556,7 @@ fn run_decode_inner(encoded: &[u8], pieces: &[Piece], limits: Limits, prefill: &
         obs.dec_states.push(dec.state_key());
         let mut consumer = dec.consumer();
         if stable.len() != total || consumer.has_pending_backrefs() {
-            return Err(format!("[prefix] decoder lag: {} of {} produced bytes are consumable (must be all)", stable.len(), total));
+            fail(Oracle::PrefixLag, format!("[prefix] decoder lag: {} of {} produced bytes are consumable (must be all)", stable.len(), total))?;
         }
         let removed = drain(&mut consumer, p.d, &stable, "decoder")?;
         snaps.push((drained.len(), stable));
@@ -443,14 +570,14 @@ fn run_decode_inner(encoded: &[u8], pieces: &[Piece], limits: Limits, prefill: &
                 let rest = out.flatten().map_err(|_| "decoder output has a pending placeholder".to_string())?;
                 for (i, s) in out.stable_prefix().iter().enumerate() {
                     if !slice_ok(s.as_ptr() as usize, s.len(), &buffers) {
-                        return Err(format!("[live] decoder: final slice #{} is neither in a live arena chunk nor in a caller buffer", i));
+                        fail(Oracle::Liveness, format!("[live] decoder: final slice #{} is neither in a live arena chunk nor in a caller buffer", i))?;
                     }
                 }
                 let mut output = drained;
                 output.extend_from_slice(&rest);
                 for (at, stable) in &snaps {
                     if output.len() < at + stable.len() || output[*at..at + stable.len()] != stable[..] {
-                        return Err("[prefix] decoder: bytes consumable after a call are not a prefix of the final output".into());
+                        fail(Oracle::PrefixLag, "[prefix] decoder: bytes consumable after a call are not a prefix of the final output".into())?;
                     }
                 }
                 if output.len() < prefill.len() || output[..prefill.len()] != *prefill {
